@@ -139,7 +139,7 @@ func check(flags explore.Flags, out *os.File, only string, lenOverride, depthOve
 			budget = 13 * time.Minute
 		}
 	} else if budget == 0 {
-		budget = 55 * time.Second
+		budget = 50 * time.Second
 	}
 	if lenOverride > 0 {
 		L = lenOverride
